@@ -364,3 +364,22 @@ Lemma hip_client_pinned_counterexample :
   exists (hrun : string -> hsim) cwd pkg inp out,
     ho_raises (hip_client hrun cwd pkg inp out true) = false /\ ho_raises (hip_client_pinned hrun pkg inp out true) = true.
 Proof. exists (fun p => if String.eqb p "/w/in.txt" then HOk "r" else HFail), "/w", "/pkg", "in.txt", "/tmp/o.out". split; reflexivity. Qed.
+
+(* ------------------------------------------------------------------ Model(input_file=...), histories of client calls *)
+Lemma keyword_input_wins a argv : model_input_source (Some a) argv = Some a /\ model_input_source None argv = nth_error argv 1.
+Proof. split; reflexivity. Qed.
+
+Lemma history_independent (run : string -> sim) pkg cwd qs :
+  history (client_step run) pkg cwd qs
+  = map (fun q => (cwd, client run cwd pkg (q_inp q) (q_out q) (q_text q))) qs.
+Proof. induction qs as [|q r IH]; [reflexivity|]. cbn [history map client_step fst]. now rewrite IH. Qed.
+
+Lemma history_leaky_counterexample :
+  exists (run : string -> sim) pkg cwd q1 q2,
+    map fst (history (client_step_leaky run) pkg cwd [q1; q2]) = [pkg; pkg] /\ pkg <> cwd
+    /\ input_file pkg (client_argv pkg (q_inp q2) (q_out q2)) <> input_file pkg (client_argv cwd (q_inp q2) (q_out q2)).
+Proof.
+  exists sim_of_text, "/pkg", "/w", {| q_inp := "bad.txt"; q_out := "/tmp/a.out"; q_text := "fail" |},
+         {| q_inp := "in.txt"; q_out := "/tmp/b.out"; q_text := "ok" |}.
+  repeat split; vm_compute; congruence.
+Qed.
